@@ -12,7 +12,11 @@ extern const _Bool g_not_real[CAP], g_is_base[CAP], g_is_kleene[CAP], g_src_is_f
 extern const _Bool g_deferred[CAP], g_state_is_fsm[CAP]; extern const int g_state_id[CAP];
 extern const _Bool g_has_row, g_is_completion_event; extern const int g_c, g_i, g_s;
 enum { FN_NT = -1, FN_DEFER = -2, FN_EVENTLESS = -3, FN_NT_INTERNAL = -4 };
-#define ROW(t) (t)
+#define ROW(t) (t)                       /* the cell is the row's execute itself: the event object reaches the row by reference */
+#define ROW_CONVERTING(t) ((t) + 2 * CAP)  /* the cell is convert_event_and_forward<Transition>::execute: the row gets a NEW object of its trigger type built from the event */
+/* what the cell of row t must be: only a Kleene trigger (boost::any ...) needs the conversion; a row whose trigger is the event's type or a base
+   class of it must get the event object itself - a converted copy would be sliced to the base class (C18 payload integrity) */
+#define CELLV(t) (g_is_kleene[t] ? ROW_CONVERTING(t) : ROW(t))
 #define CELL_OF_ROW(t) (g_src_is_fsm[t] ? 0 : g_src_id[t] + 1)
 #define CELL_OF_STATE(s) (g_state_is_fsm[s] ? 0 : g_state_id[s] + 1)
 #define DEFAULT_OF(s) (g_is_completion_event ? FN_EVENTLESS : g_deferred[s] ? FN_DEFER : g_state_is_fsm[s] ? FN_NT_INTERNAL : FN_NT)
@@ -44,14 +48,15 @@ TABLE_PRE
 #endif
 __CPROVER_requires(g_phase == 1)                                                                          /*@ob C01.rows-are-written-over-the-defaults-not-under-them */
 __CPROVER_assigns(__CPROVER_object_whole(entries), g_phase)
-__CPROVER_ensures(g_phase == 2 && entries[g_c] == (g_has_row ? ROW(g_i) : __CPROVER_old(entries[g_c])))   /*@ob C01.cell-of-a-state-is-the-chained-row-of-that-source-state */
+__CPROVER_ensures(g_phase == 2 && entries[g_c] == (g_has_row ? CELLV(g_i) : __CPROVER_old(entries[g_c])))   /*@ob C01.cell-of-a-state-is-the-chained-row-of-that-source-state */
+__CPROVER_ensures(g_has_row ==> entries[g_c] == CELLV(g_i))                                                /*@ob C18,C13.only-a-kleene-row-goes-through-the-converting-wrapper-other-rows-get-the-event-object-itself */
 ;
 #if UNIT_CTOR
 void build_entries(int* entries)
 TABLE_PRE
 __CPROVER_requires(g_phase == 0)
 __CPROVER_assigns(__CPROVER_object_whole(entries), g_phase)
-__CPROVER_ensures(g_has_row ==> entries[g_c] == ROW(g_i))                                                  /*@ob C01.cell-of-a-state-is-the-chained-row-of-that-source-state */
+__CPROVER_ensures(g_has_row ==> entries[g_c] == CELLV(g_i))                                                /*@ob C01,C18.cell-of-a-state-is-the-chained-row-of-that-source-state */
 __CPROVER_ensures(!g_has_row ==> entries[g_c] == DEFAULT_OF(g_s))                                          /*@ob C01,C05.state-without-a-row-gets-the-default-that-matches-its-kind */
 ;
 #endif
